@@ -2,13 +2,16 @@
 from vlib import CaseT
 from wbprop import WigBedProp
 import bbgen
+from props import C10 as c10
 
 
 class C03(WigBedProp):
     pid = "C03"
     rule = ("files written as in C01 (non-empty values); per file a sequence of 6–10 interval and per-base queries on the boundary "
             "set {0, len, every value start/end ±1, every block boundary ±1}, empty ranges included, against one reader "
-            "instance: plain, caching, a fresh reader per query, a fresh caching reader per query. "
+            "instance: plain, caching, a fresh reader per query, a fresh caching reader per query; and bigWigs from the independent "
+            "encoder of C10 (bedGraph, variable-step and fixed-step sections with span ≠ step, either byte order, permuted "
+            "chromosome ids), same reader modes, judged against the encoded content. "
             "Non-trivial = a query that cuts a value or ends on a block boundary in a multi-section file")
 
     def cases(self, rng, tier):
@@ -26,6 +29,12 @@ class C03(WigBedProp):
             tags.add("reader_" + o["reader"])
             tags.add("nt")
             out.append(CaseT(f"q{k}", "wig", [], lines, self.common_tags(o, names, data, tags)))
+        # bigWigs no bigtools writer produces: variable-step / fixed-step sections, big-endian, any index layout
+        for k in range(400 if tier == "thorough" else 60):
+            c = c10.foreign_case(rng.fork(f"foreign{k}"), f"f{k}", bed=False, readers=("plain", "cached", "fresh", "freshcached"))
+            if c is not None:
+                c.tags.add("foreign_file")
+                out.append(c)
         # the caching reader's reset: a file with more than 5000 one-value blocks, queried through the caching reader in
         # an order that fills the block cache past its limit and then revisits early blocks
         nblocks = 5200
@@ -41,7 +50,22 @@ class C03(WigBedProp):
         return out
 
     def oracle(self, case, il):
+        if case.kind == "readwig":
+            return c10.PROP.oracle(case, il)
         return bbgen.basic_ok(il) or bbgen.oracle_wig_queries(case, il)
+
+    def compare(self, case, il, ml):
+        if case.kind == "readwig":
+            return c10.PROP.compare(case, il, ml)
+        return super().compare(case, il, ml)
+
+    def model_extra(self, case, il):
+        if case.kind == "readwig":
+            return []
+        return super().model_extra(case, il)
+
+    def nontrivial(self, case, il):
+        return "nt" in case.tags
 
 
 PROP = C03()
